@@ -1,6 +1,7 @@
 import LexVerif.Proof.WriteIntApi
 import LexVerif.Proof.WriteIntAlgorithm
 import LexVerif.Proof.WriteIntDecimal128
+import LexVerif.Proof.WriteIntDecimalCount
 /-!
 # C03 — integer→string output is the exact canonical numeral in every radix (property theorems)
 
@@ -141,6 +142,22 @@ example : writeInt { powerOfTwo := true, radix := true } ⟨64, true⟩ 36 false
     (List.replicate 128 170) =
     .ok ([45, 49, 89, 50, 80, 48, 73, 74, 51, 50, 69, 56, 69, 56] ++ List.replicate 114 170, 14) := by
   decide +kernel
+
+/-- the decimal digit counts (`fast_digit_count` with its 32-row table for u8/u16/u32, `fallback_digit_count` with
+`fast_log10` and the power-of-ten tables for u64/u128) are exact for every value. (They are not on the integer
+write path — radix 10 goes through jeaiii — but the float writers use them.) -/
+theorem decimalCount_exact (bits x : Nat) (hb : ValidBits bits) (hx : x < 2 ^ bits) :
+    decimalCount bits x = .ok (toDigits 10 x).length :=
+  decimalCount_spec bits x hb hx
+
+example : decimalCount 32 999999999 = .ok 9 ∧ decimalCount 32 1000000000 = .ok 10 := by decide +kernel
+
+/-- `Decimal::decimal(_signed)` (the jeaiii writers `from_u8 … from_u128`, `from_i64`) writes exactly the decimal
+numeral into any buffer of at least the type's slice size, for every value. -/
+theorem decimal_correct (bits value : Nat) (signedCall : Bool) (hb : ValidBits bits) (hv : value < 2 ^ bits)
+    (hs : signedCall = true → value ≤ 2 ^ (bits - 1)) :
+    MantSpec (decimal bits value signedCall) (numeral 10 value) (needDec bits signedCall) :=
+  decimal_spec bits value signedCall hb hv hs
 
 /-- **C03 for the decimal writers** (`decimal.rs` / `jeaiii.rs`): every non-compact build (default, `format`,
 `power-of-two`, `radix`), radix 10, all 12 integer types, every value, both sign settings: the jeaiii comparison
